@@ -273,6 +273,25 @@ def check_fill_into(res, args, n, horizon):
     res.case(nontrivial=0 < len(expected) < n, outcome=(tuple(v[0] for v in sink.got), stopped_at))
     if stopped_at is not None:
         res.count("fill_into_stopped")
+    if not problems and n >= 2:
+        # deep copies of one Slice (lena copies analyses: SplitIntoBins, MapBins, Vectorize) are
+        # independent elements: two copies filled one after the other both fill what a new Slice fills
+        try:
+            import copy
+            proto = lena.flow.Slice(*args)
+            for which in ("first copy", "second copy", "original"):
+                el2 = proto if which == "original" else copy.deepcopy(proto)
+                sink2 = _Collect()
+                for j, v in enumerate(xs):
+                    try:
+                        el2.fill_into(sink2, v)
+                    except lena.core.LenaStopFill:
+                        break
+                if not _same(sink2.got, sink.got):
+                    problems.append("%s of a deep-copied Slice filled %r" % (which, [v[0] for v in sink2.got]))
+                    break
+        except Exception as e:
+            problems.append("deep copy raised " + type(e).__name__)
     if problems:
         s = slice(*args)
         res.violation(case, problems, {"filled": [v[0] for v in expected]},
